@@ -229,6 +229,10 @@ func checkObs(f failer, err error, what string) {
 // rapidHistory is the generating front end of runCase.
 func rapidHistory(t *rapid.T, prop string, cfg world.Cfg, weights map[string]int, universe []string, orc oracle, avoid func(hist.Step, *hist.MRunner) string) {
 	g := hist.NewGen(t, weights, universe, 4, cfg.RecordSize)
+	if guard("F-33") && cfg.Compression == "parallelbzip2" && cfg.Encryption == "pgp" {
+		g.MaxSize = 90000 // finding F-33: larger contents cannot be read back
+		live.S.Exclude("F-33")
+	}
 	g.Avoid = avoid
 	n := rapid.IntRange(1, *maxSteps).Draw(t, "nsteps")
 	runCase(t, prop, cfg, nil, orc, world.Opts{}, func(x *hctx, i int) (hist.Step, bool) {
